@@ -174,6 +174,15 @@ class BinaryOperatorSymbol(LogicSymbol):
         x = int(math.cos(math.pi/4)*25)
         y = int(math.sin(math.pi/4)*25)
 
+        if (selidx == 2):
+            # third input (e.g. the carry in of an adder), it needs its own
+            # pin: leftmost point of the ellipse
+            return (0, LogicSymbol.namemargin + 25)
+        
+        if (selidx > 2):
+            # any further input enters from below, each at its own position
+            return (25 - 6*(selidx-3), LogicSymbol.namemargin + 50)
+        
         if (selidx == 0):
             y = -y
 
